@@ -31,6 +31,25 @@ def readExact : List Bytes → Nat → Bytes → Except Nat (Bytes × List Bytes
     else if c.length ≤ need then readExact cs (need - c.length) (acc ++ c)
     else .ok (acc ++ c.take need, c.drop need :: cs)
 
+/-- one low-level `stream.read(k)` against the adversary: the next chunk if it has at most `k` bytes, else its first `k` bytes
+(the remainder stays available); nothing left = `b""` -/
+def lowRead : List Bytes → Nat → Bytes × List Bytes
+  | [], _ => ([], [])
+  | c :: cs, k => if c.length ≤ k then (c, cs) else (c.take k, c.drop k :: cs)
+
+/-- `Unserializer._read_exact(numbytes)` (numbytes ≥ 0): one `read(numbytes)`, then `read(numbytes - len(buf))` until complete
+
+    buf = self.stream.read(numbytes)
+    while len(buf) < numbytes:
+        data = self.stream.read(numbytes - len(buf))
+        if not data: raise EOFError("expected %d bytes, got %d")
+        buf += data
+    return buf
+-/
+def unserReadExact (chunks : List Bytes) (n : Nat) : Except Nat (Bytes × List Bytes) :=
+  let r := lowRead chunks n
+  if n ≤ r.1.length then .ok r else readExact r.2 (n - r.1.length) r.1
+
 def totalLen (chunks : List Bytes) : Nat := (chunks.map List.length).sum
 
 /-- `while 1: Message.from_io(io)` where `io.read` is the loop above; `fuel` bounds the number of
